@@ -262,3 +262,35 @@ func vpQueryTeardownBody(small bool) {
 		vpAssert(live == 0, "C21: a goroutine started for the query is still running after the query ended")
 	}
 }
+
+// A query given a Context that is not one of the context package's own types makes
+// context.WithCancel start a propagation goroutine; it must be gone once the query has completed
+// cleanly (finish releases the query's internal context), without Close and without cancellation.
+//
+//vp:override (*bs.BloomSearchEngine).evaluateBloomFilters=vpQueryVerdictStub
+//vp:override (*bs.blockFilterCursor).filtersFor=vpQueryFiltersFor
+//vp:override (*bs.blockFilterCursor).release=vpCursorReleaseNop
+//vp:override bs.readPooledBlockRowData=vpReadRowDataOK
+//vp:override (*bs.compiledRowMatcher).matchRowBytes=vpMatchAll
+//vp:override bs.materializeRow=vpMaterializeOK
+//vp:maxsteps 400000
+//vp:bounds the real Query (all goroutines) over 1 file x 1..2 blocks drained to clean completion, the caller's context a foreign Context implementation with a live Done channel; no faults
+func H_C21_clean_completion_leaves_no_context_goroutine() {
+	w := vpNewWorld()
+	w.openAlways = true
+	vpQuerySetupFixed(w, 1, 1+nondetChoice(2))
+	b := vpQueryEngine(w, 1)
+	vpScanData = []byte{2, 0, 0, 0, '{', '}'}
+	foreign := &vpCancelCtx{may: false, done: make(chan struct{})}
+	r, err := b.Query(foreign, NewQuery().Field("f").Build())
+	vpAssert(err == nil, "C20: Query failed")
+	n := 0
+	for r.Next() {
+		n++
+		vpAssert(n <= 2, "C02: more rows than stored")
+	}
+	vpAssert(r.Err() == nil, "C20: a fault-free query ended with an error")
+	vpQuiesce() // let whatever is still runnable run
+	vpAssert(vpLiveGoroutines() == 0, "C21: a goroutine started for the query is still running after it completed (the query's internal context was not released)")
+	vpAssert(len(b.querySemaphore) == 0, "C21: budget not restored")
+}
